@@ -300,14 +300,21 @@ canonical NUM_INT; values of `int64` size -/
 def wfThreads (t : Bytes) : Bool :=
   (isFloatTok t && (parseFloat true t).isSome) || isCanonInt t
 
-/-- `mem_gb` / `vmem_gb` below 256 GB (2^18 = 262144 MB) in magnitude: the range where the EXACT
-reading of the model (`readGBTok`) and the float32 reading of the REAL parser (`readGB32Tok`) agree
-on every text `formatGB` prints (`Props.C09.readGB32_inverts_formatGB`).  From 256 GB on the real
-parser can read the printed text one MB lower (finding F29, `Props.C09.formatGB_float32_witness`),
-so the round-trip theorems over `wfRes` / `wfStage` / `wfFile` are claimed below that bound only.
-(`formatGB`'s own `int64` range, `|mb| < 2^63`, finding F25, is much larger and is subsumed.) -/
+/-- **The exact domain of the resource round trip**: `formatGB`'s text for `mb` MB, read the way the
+REAL parser reads it (`readGB32`: nearest float32 of the literal, then `roundUpTo(·, 1024)`), is `mb`
+again — and `mb` is within `formatGB`'s `int64` range (F25).  Decidable, evaluated by the driver.
+True for every `|mb| < 2^18` (below 256 GB: `gbRoundTrips_below_256GB`, all values by kernel
+evaluation) and for every whole number of GB up to 64 TB (`gbRoundTrips_whole_GB`: `formatGB` prints
+an integer, which float32 holds exactly); false for about 0.8 % of the values just above 256 GB
+(finding F29, e.g. 262188 MB) and more and more often as the float32 spacing grows. -/
+def gbRoundTrips (mb : Int) : Bool :=
+  decide (mb.natAbs < 2 ^ 63) && (readGB32 (fmtGB mb) == some mb)
+
+/-- `mem_gb` / `vmem_gb` values for which the round-trip theorems are claimed: exactly those on which
+the real reader inverts `formatGB` (`gbRoundTrips`; third audit A10: formerly the range `|mb| < 2^18`,
+which excluded every value from 256 GB on although F29 affects few of them). -/
 def wfMB : Option Int → Bool
-  | some mb => decide (mb.natAbs < 262144)
+  | some mb => gbRoundTrips mb
   | none => true
 
 def wfRes (r : Res) : Bool :=
